@@ -5,6 +5,8 @@ import PyxModel.Oal.Expr
   for an ARBITRARY well-formed precedence table, by structural induction on the tree in continuation
   form, with explicit fuel bounds (so that the fuel-free `parseExprTop` is covered).
 -/
+set_option linter.unusedSimpArgs false
+
 namespace Pyx.Oal
 
 /-- what the round trip needs of a table; `decide`d for the generated one (`Props/C07.lean`) -/
